@@ -211,6 +211,15 @@ def routing_case(ctx, case, monitors):
                     ctx.nontrivial_case(dict(i=insts[b], a=acts))
                     if b == 0:
                         ctx.sample(dict(case=case, actions=acts, reward=got, oracle=ref, padding=pad[b]))
+                r0_ = getattr(ep, "reward_on_reset", None)
+                state_reward = cfg["env"] == "mdcpdp" or (cfg["env"] == "mtsp" and cfg.get("cost_type", "minmax") == "minmax")
+                if r0_ is not None and r0_.numel() == B and not state_reward:
+                    ctx.count("c03_rescored_on_reset_state")
+                    r0v = r0_.reshape(B, -1)[:, 0]
+                    for b in range(B):
+                        if complete[b] and abs(float(r0v[b]) - float(r[b])) > tol_reward(float(r[b])):
+                            ctx.violation(sig_of(cfg, q="reward", via="rescored_on_reset_state"), f"get_reward(reset state, actions) = {float(r0v[b])}, get_reward(final state, actions) = {float(r[b])}: the reward of this env is documented as a function of the instance and the actions (the evaluators re-score this way)", dict(row=b, inst=insts[b], actions=ep.executed(b)))
+                            break
                 rr = getattr(ep, "reward_repeat", None)
                 if rr is not None and rr.numel() == B:
                     ctx.count("c03_repeated_reward_calls")
